@@ -309,13 +309,15 @@ int parsec_vpmap_init_from_file(const char *filename)
             }
         } else if( line[0] == ':' ) {
             /* no target proc specified, applies to all. */
+            rest_of_line = line;
         } else {
             parsec_warning("malformed line %s in vpmap description %s.", line, filename);
             continue;
         }
         /* Add the current vpmap description to the local_vpmap */
         parsec_nbvp++;
-        if( NULL == local_vpmap ) {
+        rest_of_line[strcspn(rest_of_line, "\r\n")] = '\0';  /* one VP description per line */
+        if( NULL != local_vpmap ) {
             asprintf(&next_string, "%s\n%s", local_vpmap, rest_of_line);
             free(local_vpmap);
         } else {
